@@ -100,6 +100,12 @@ def _stage_ab(ctx):
                     a, b = ents[i], ents[j]
                     if (a[0], a[1]) == (b[0], b[1]) or a[3] == b[3]:
                         continue
+                    if not a[2] or not b[2]:
+                        # a signature made without consulting the random source (deterministic nonces, e.g. RFC 6979): in a group
+                        # of a few dozen elements equal r values are forced by counting, and "unless the source repeats a draw"
+                        # cannot be evaluated; the clause is judged for such code at full size (signpair events of stage C)
+                        ctx.cov["c01_pairs_without_draws_skipped"] = ctx.cov.get("c01_pairs_without_draws_skipped", 0) + 1
+                        continue
                     neg_b = {(nn - x) % nn for x in b[2]}
                     if a[2] & b[2] or a[2] & neg_b:
                         continue
